@@ -221,6 +221,7 @@ func (s *shadow) equalsLedger(l *mat.Ledger) error {
 }
 
 type history struct {
+	pinned bool // manager created with the linear expiration order pinned
 	t     *mat.Tree
 	nm    *mat.Names
 	tj    mat.TreeJSON
@@ -259,6 +260,10 @@ func (h *history) emitProjection(op, ret string) Projection {
 	e.Notif = h.notif + p.Notif
 	e.Lis = p.Lis
 	e.StateOk = p.StateOK || p.OrderDiverged || h.t.Node(max(p.Mem, 1)).L == nil
+	if h.pinned && !p.StateOK && h.t.Node(max(p.Mem, 1)).L != nil {
+		e.StateOk = false
+		h.mismatch("driver:c02:pinned-order-state", fmt.Sprintf("with WithExpiringContractOrder pinning the linear order, the state of tip %d still differs from the linear ledger's", p.Mem))
+	}
 	h.tw.Emit(e)
 	return p
 }
@@ -545,6 +550,12 @@ func TestDriver(t *testing.T) {
 	if mode == "core" && os.Getenv("VERIF_ONLY_SEED") == "" {
 		directed = 1 // plus the directed heavier-but-shorter history
 	}
+	if mode == "ledger" && os.Getenv("VERIF_ONLY_SEED") == "" {
+		// plus two directed histories in which contracts sharing an expiration height EXPIRE after a
+		// reorg changed their list order (the state-level face of the C02 finding): once as the code
+		// is, once with WithExpiringContractOrder pinning the linear order (state must be linear)
+		directed = 2
+	}
 	for hi := 0; hi < nHist+directed; hi++ {
 		seed := base + int64(hi)
 		if rs := os.Getenv("VERIF_ONLY_SEED"); rs != "" {
@@ -554,10 +565,14 @@ func TestDriver(t *testing.T) {
 		reg := [][3]uint64{{1000, 1010, 1020}, {8, 14, 18}, {1, 1, 1}, {5, 6, 7}}[rng.Intn(4)]
 		spec := TreeSpec{Seed: seed, Allow: reg[0], Require: reg[1], Final: reg[2], Blocks: minB + rng.Intn(maxB-minB+1), Warmup: 3,
 			MaxLeaves: 4, BadBlocks: 4, OpsPerBlk: 3, ForkProb: 0.18, UniqueWindows: mode != "ledger", RandTwins: 3}
-		if hi >= nHist {
+		if hi >= nHist && mode == "core" {
 			// total work diverging from chain length: the tip must move to the sufficiently heavier
 			// branch although it is SHORTER (the weight gate compares work, not height)
 			spec = TreeSpec{Seed: seed, HeavyShort: [2]int{165, 150}}
+		}
+		if hi >= nHist && mode == "ledger" {
+			spec = TreeSpec{Seed: seed, Allow: 100, Require: 110, Final: 120, OpsPerBlk: 0,
+				Shape: []int{1, 2, 3, 3, 5, 6}, Scripts: map[int][]string{2: {"fc1w", "fc1w", "fc1w"}, 4: {"sp1"}}}
 		}
 		if mode == "durable" && reg[0] == 1000 {
 			// v1-only histories also put several contracts under one expiration height (the
@@ -570,13 +585,25 @@ func TestDriver(t *testing.T) {
 		s.trees = append(s.trees, tj)
 		// C03: the store must be durable-consistent on a write-back cache too (chain.CacheDB over the
 		// database: what survives the process is the database, not what the cache shows)
+		// C02: with chain.WithExpiringContractOrder pinning the linear order of every block's expiring
+		// contracts (the option the repository offers against the history-dependent expiration order),
+		// the tip state must be byte-equal to the linear ledger's after ANY history
+		pinned := mode == "ledger" && hi%2 == 1
+		if hi >= nHist && mode == "ledger" {
+			pinned = hi == nHist+1
+		}
+		MgrOpts = nil
+		if pinned {
+			MgrOpts = []chain.ManagerOption{chain.WithExpiringContractOrder(LinearExpiryOrder(tr))}
+			res.Count("histories_with_pinned_expiry_order", 1)
+		}
 		backend := "mem"
 		if mode == "durable" {
 			backend = []string{"mem", "cache", "bolt"}[hi%3]
 			res.Count("histories_on_"+backend, 1)
 		}
 		h := &history{t: tr, nm: nm, tj: tj, ti: len(s.trees), n: NewNodeOn(tr.W, backend, true), ids: map[types.BlockID]int{}, subs: map[string]*shadow{},
-			tw: s.tw, res: res, rng: rng, seed: seed, mode: mode}
+			tw: s.tw, res: res, rng: rng, seed: seed, mode: mode, pinned: pinned}
 		for _, nd := range tr.Nodes {
 			h.ids[nd.Block.ID()] = nd.Alias
 		}
@@ -633,6 +660,9 @@ func TestDriver(t *testing.T) {
 		}
 		for i := 0; i < len(order); {
 			k := 1 + rng.Intn(4)
+			if hi >= nHist && mode == "ledger" {
+				k = 1 // directed: block by block, the main branch first
+			}
 			if i+k > len(order) {
 				k = len(order) - i
 			}
@@ -730,6 +760,7 @@ func TestDriver(t *testing.T) {
 			h.auditSnapshots(order, uh)
 		}
 		h.n.DB.Close()
+		MgrOpts = nil
 		res.Eval(fmt.Sprintf("%d", seed))
 		if hi == 0 {
 			res.Sample(map[string]any{"seed": seed, "tree_parents": tj.Parent, "classes": tj.Cls, "regime": reg, "submission_order": order})
